@@ -315,12 +315,15 @@ fn bursts(seed: u64, threads: usize, nlocks: usize, rounds: usize, per_round: us
 /// is demanded is progress: every call returns or unwinds, none blocks forever. Decided on progress: a stall is
 /// declared when no call has finished for 20 s although calls are outstanding.
 fn poison_history(seed: u64, threads: usize, ops_per_thread: usize, miri: bool) -> Outcome {
-    let lock: Arc<StdLock<Vec<u64>>> = Arc::new(StdLock::new(Vec::new()));
+    // guarded value: (list, count) with the invariant count == list.len(); the faulty closure updates the list,
+    // lingers (so that other callers queue up behind it) and panics before it updates the count
+    let lock: Arc<StdLock<(Vec<u64>, u64)>> = Arc::new(StdLock::new((Vec::new(), 0)));
     let finished = Arc::new(AtomicU64::new(0));
     let calls = Arc::new(AtomicU64::new(0));
+    let torn = Arc::new(AtomicU64::new(0));
     let mut handles = vec![];
     for t in 0..threads {
-        let (lock, finished, calls) = (lock.clone(), finished.clone(), calls.clone());
+        let (lock, finished, calls, torn) = (lock.clone(), finished.clone(), calls.clone(), torn.clone());
         handles.push(std::thread::spawn(move || {
             for k in 0..ops_per_thread {
                 let h = mix(seed ^ ((t as u64) << 32) ^ k as u64);
@@ -328,11 +331,23 @@ fn poison_history(seed: u64, threads: usize, ops_per_thread: usize, miri: bool) 
                 let faulty = t == 0 && k == ops_per_thread / 2;
                 let _ = std::panic::catch_unwind(std::panic::AssertUnwindSafe(|| {
                     lock.apply(|v| {
+                        if v.0.len() as u64 != v.1 {
+                            torn.fetch_add(1, Ordering::SeqCst);
+                        }
+                        v.0.push(h);
                         if faulty {
+                            if !miri {
+                                let t0 = std::time::Instant::now();
+                                while (t0.elapsed().as_micros() as u64) < 300 + (h >> 20) % 2000 {
+                                    std::hint::spin_loop();
+                                }
+                            } else {
+                                std::thread::yield_now();
+                            }
                             panic!("injected fault inside the closure");
                         }
-                        v.push(h);
-                        v.len()
+                        v.1 += 1;
+                        v.1
                     })
                 }));
                 calls.fetch_add(1, Ordering::SeqCst);
@@ -363,6 +378,10 @@ fn poison_history(seed: u64, threads: usize, ops_per_thread: usize, miri: bool) 
     }
     for h in handles {
         let _ = h.join();
+    }
+    let n = torn.load(Ordering::SeqCst);
+    if n > 0 {
+        violations.push(format!("{n} closures were let into the lock on top of the half-applied update of a closure that panicked (they observed list length != count): torn update observed"));
     }
     Outcome { ops: calls.load(Ordering::SeqCst) as usize, violations, switches: 0, signature: seed }
 }
